@@ -2,6 +2,7 @@ package sa
 
 import (
 	"fmt"
+	"go/constant"
 	"go/token"
 	"go/types"
 	"sort"
@@ -854,7 +855,9 @@ func runC12(c *Ctx) {
 	r.Rule("R8", "every insertion into the nick or channel map is dominated by the not-found edge of a lookup of the same key (no overwrite of a tracked entry)")
 	r.Rule("R9", "in channel mode parsing every path that parses, stores or writes state from the next mode argument advances the argument list before the next mode character")
 	r.Rule("R10", "every pointer/map answer of an exported tracker method is built anew from the tracker's state on that call (deep-fresh), so no answer can lag behind the state")
+	r.Rule("R11", "an attribute passed to an exported tracker method and stored into a tracked nick or channel (ident, host, real name, topic, new name) is stored on every path on which the method succeeds - no conditional store can leave a stale attribute")
 	c.trackerRules(map[string]string{"R1": "R1", "R2": "R2", "R3": "R3", "R4": "R4", "R5": "R5", "R6": "R6", "R7": "R7", "R8": "R8", "R9": "R9", "R10": "R10"})
+	c.setterRule("R11")
 }
 
 // ---------------- C13 ----------------
@@ -1325,4 +1328,92 @@ func posIn(c *Ctx, in ssa.Instruction) string {
 		return "-"
 	}
 	return c.InstrPos(in)
+}
+
+// setterRule: an attribute handed to an exported tracker method and stored
+// into a tracked nick or channel is stored on every path on which the method
+// succeeds (returns a non-nil / true answer), so the stored attribute always
+// equals the argument of the last successful call, as in the model.
+func (c *Ctx) setterRule(rule string) {
+	r := c.R
+	trk := c.Named(c.State, "stateTracker")
+	if !r.Anchor(rule, "state.stateTracker", trk != nil) {
+		return
+	}
+	tracked := map[*types.Struct]string{}
+	for _, n := range []string{"nick", "channel"} {
+		if nt := c.Named(c.State, n); nt != nil {
+			if st, ok := nt.Underlying().(*types.Struct); ok {
+				tracked[st] = n
+			}
+		}
+	}
+	ms := c.SSA.MethodSets.MethodSet(types.NewPointer(trk))
+	n := 0
+	for i := 0; i < ms.Len(); i++ {
+		sel := ms.At(i)
+		if !sel.Obj().Exported() {
+			continue
+		}
+		fn := c.SSA.MethodValue(sel)
+		if fn == nil || fn.Blocks == nil {
+			continue
+		}
+		for pi, pr := range fn.Params {
+			if pi == 0 {
+				continue
+			}
+			byField := map[*types.Var][]ssa.Instruction{}
+			funcInstrs(fn, func(in ssa.Instruction) {
+				s, ok := in.(*ssa.Store)
+				if !ok || s.Val != ssa.Value(pr) {
+					return
+				}
+				fv, base := fieldOf(s.Addr)
+				if fv == nil {
+					return
+				}
+				if _, ok := tracked[derefStruct(base.Type())]; ok {
+					byField[fv] = append(byField[fv], in)
+				}
+			})
+			for fv, stores := range byField {
+				isStore := func(in ssa.Instruction) bool {
+					for _, s := range stores {
+						if s == in {
+							return true
+						}
+					}
+					return false
+				}
+				funcInstrs(fn, func(in ssa.Instruction) {
+					rt, ok := in.(*ssa.Return)
+					if !ok {
+						return
+					}
+					if len(rt.Results) > 0 {
+						fail := true
+						for _, o := range c.Origins(retVal(rt, 0)) {
+							if isNilConst(o) {
+								continue
+							}
+							if k, ok := o.(*ssa.Const); ok && k.Value != nil && k.Value.Kind() == constant.Bool && !constant.BoolVal(k.Value) {
+								continue
+							}
+							fail = false
+						}
+						if fail {
+							return
+						}
+					}
+					n++
+					ok = SetDominates(fn, isStore, rt)
+					r.Add(rule, fmt.Sprintf("setter:%s:%s", c.FuncKey(fn), fv.Name()), c.InstrPos(rt), c.FuncKey(fn),
+						"parameter "+pr.Name()+" is stored to "+fv.Name()+" on every successful path", ok,
+						"the success return is reachable without storing "+pr.Name()+" to "+fv.Name()+" (conditional store: the attribute can keep a stale value)")
+				})
+			}
+		}
+	}
+	r.Floor(rule, "attribute stores of exported tracker methods checked on success returns", n, 4)
 }
